@@ -17,6 +17,7 @@ from torchtree.core.utils import (
     get_class,
     process_objects,
     register_class,
+    restore_int_keys,
 )
 from torchtree.inference.utils import extract_tensors_and_parameters
 from torchtree.typing import ID, ListParameter
@@ -199,7 +200,10 @@ class Optimizer(Identifiable, Runnable):
 
     def load_state_dict(self, state_dict: dict[str, Any]) -> None:
         self._epoch = state_dict["iteration"]
-        self.optimizer.load_state_dict(state_dict["optimizer"])
+        optimizer_state = dict(state_dict["optimizer"])
+        # torch keys the state by parameter index: a JSON checkpoint spells them as strings
+        optimizer_state["state"] = restore_int_keys(optimizer_state["state"])
+        self.optimizer.load_state_dict(optimizer_state)
         if self.scheduler is not None:
             self.scheduler.load_state_dict(state_dict["scheduler"])
 
